@@ -3,15 +3,15 @@ from facts import walk, callee_of, call_args, loc
 import hirq, anchors, absx, sem, driver
 
 EXPLANATION = ("R1 path-sensitive extraction of the envelope decoder: on every success path the returned id is parse_uint of the "
-               "universal INTEGER primitive child adjacent to the protocolOp child, controls come from the trailing [0] constructed "
-               "child; R2 every routing-map access and ID release in the driver's response arm is keyed by the ID decoded from that "
+               "universal INTEGER primitive child adjacent to the protocolOp child - narrowed to the 32-bit RequestId only after a range "
+               "test or by a checked conversion -, controls come from the trailing [0] constructed child; R2 every routing-map access and ID release in the driver's response arm is keyed by the ID decoded from that "
                "very response; R3 every reply send in that arm goes to the sender obtained by that lookup and carries only data of the "
                "same decoded message; R4 the protocolOp classification table equals RFC 4511 (4,25 -> Entry; 19 -> Referral; 5 -> Done, "
                "only Done ends the search); R5 the unmatched branch neither sends nor mutates routing state; R6 registration keys/values "
                "in the request arm; R7 the request tuple carries the allocated ID and the reply channel that is awaited; R8 only the driver "
                "loop and the constructor touch the routing maps; R9 a single task forwards items in decode order (no spawn, FIFO channel types).")
 TRUSTED = ['tokio mpsc/oneshot channels are FIFO and single-consumer', 'tokio_util Framed calls the decoder on the bytes in order']
-UNDECIDED = ['channel and Framed FIFO behaviour (trusted)', 'cross-talk under IDs wider than 32 bits (`id as i32` truncation)']
+UNDECIDED = ['channel and Framed FIFO behaviour (trusted)']
 ASSUMPTIONS = []
 SHARED = [('C07', ('B2.reader', 'B7.'), 'R14.framing'), ('C06', ('G1.', 'G2.'), 'R14.framing'), ('C05', ('N1.', 'N2.', 'N3.', 'N4.', 'N5.', 'N8.'), 'R11.ids-unique'), ('C02', ('S13.',), 'R12.id-on-the-wire'), ('C10', ('Q4.entries-only.start', 'Q4.entries-only.collects', 'Q4.entries-only.finish'), 'R13.referrals-of-this-search')]      # routing by ID presupposes that concurrent operations never share an ID and that the ID of an operation the client gave up is not handed out again while its late reply may still arrive (numbering only advances)
 
@@ -322,6 +322,16 @@ def path_sig(o):
             parts.append(('' if t else '!') + a[2])
     return ','.join(parts) or 'plain'
 
+def bounded_above(pc, x, limit):
+    """the path condition holds a comparison of x with a literal that implies x <= limit"""
+    for a, t in pc:
+        if a[0] != 'bin' or a[2] != x or a[3][0] != 'lit' or not isinstance(a[3][1], int):
+            continue
+        n = a[3][1]
+        if (a[1] == 'Le' and t and n <= limit) or (a[1] == 'Lt' and t and n <= limit + 1) or (a[1] == 'Gt' and not t and n <= limit) or (a[1] == 'Ge' and not t and n <= limit + 1):
+            return True
+    return False
+
 def check_envelope_path(o, msg):
     """msg = (ID, (Tag::StructureTag(OP), CTRLS)) as terms."""
     if msg[0] != 'tuple' or len(msg[1]) != 2 or msg[1][1][0] != 'tuple':
@@ -345,7 +355,16 @@ def check_envelope_path(o, msg):
         return t[1] if (t[0] == 'variant' and t[2] in ('Some', 'Ok') and t[3] == 0) else None
     t = idt
     if t[0] == 'cast':
+        # RequestId is i32, the decoded INTEGER an unbounded u64: a narrowing cast delivers a message whose ID is wider than 31 bits
+        # to the operation whose ID its low bits happen to spell.  The path must have bounded the value (MessageID is 0..maxInt), or
+        # convert it with a checked conversion.
+        if t[2] in ('i32', 'ldap3::RequestId') and not bounded_above(o.st.pc, t[1], 2**31 - 1):
+            return False, ('the decoded message ID is narrowed to the 32-bit RequestId by a truncating cast without a range test: a response sent under an ID '
+                           'wider than 31 bits (e.g. 2^32+1) is routed to the operation whose ID its low bits spell (1)')
         t = t[1]
+    elif t[0] in ('variant', 'call') and sem.has(t, lambda x: x[0] == 'call' and x[1].endswith('::try_from')):
+        inner = absx.leaves(t, lambda x: x[0] == 'call' and x[1].endswith('::try_from'))
+        t = inner[0][2][0] if inner and inner[0][2] else t
     ok_chain = t[0] == 'field' and t[2] == '1'
     t = unwrap_some(t[1]) if ok_chain else None
     ok_chain = t is not None and t[0] == 'call' and t[1].endswith('::parse_uint') and len(t[2]) == 1
